@@ -89,8 +89,8 @@ def task_source(kind):
         'json': "return {} if _S.get('empty') else {'v': [1, 2, 3], 's': 'x' * 50, 'run': _S['run']}",
         'numpy': "return np.arange(0 if _S.get('empty') else 40, dtype='int64') + _S['run']",
         'pandas': "return pd.DataFrame({'a': list(range(20)), 'r': [_S['run']] * 20})",
-        'generated': "return ({'i': i, 'run': _S['run']} for i in range(0 if _S.get('empty') else 230 if _S.get('big') else 6))",
-        'generated_lazy': "d = self.get_data_object(); d.set_value([{'i': i, 'run': _S['run']} for i in range(0 if _S.get('empty') else 6)]); return d",
+        'generated': "return ({'i': i, 'run': _S['run'], **({'s\\u2029': 'a\\u2028b\\x85c\\x0bd\\x0ce\\x1cf\\x1e'} if _S.get('special') else {})} for i in range(0 if _S.get('empty') else 230 if _S.get('big') else 6))",
+        'generated_lazy': "d = self.get_data_object(); d.set_value([{'i': i, 'run': _S['run'], **({'s\\u2029': 'a\\u2028b\\x85c\\x0bd\\x0ce\\x1cf\\x1e'} if _S.get('special') else {})} for i in range(0 if _S.get('empty') else 6)]); return d",
         'listnumpy': "return [np.arange(5) + i + _S['run'] for i in range(0 if _S.get('empty') else 12 if _S.get('big') else 3)]",
         'dir': "d = self.get_data_object()\n        (d.dir / 'a.txt').write_text('A' * 30 + str(_S['run']))\n        if _S.get('extra'):\n            (d.dir / 'extra.txt').write_text('E')\n        if _S['fault'] == 'raise_midway':\n            raise RuntimeError('boom midway')\n        (d.dir / 'sub').mkdir()\n        (d.dir / 'sub' / 'b.txt').write_text('B' * 30)\n        return d",
         'continues': "d = self.get_data_object()\n        (d.dir / 'part1').write_text('P1-' + str(_S['run']))\n        if _S['fault'] == 'raise_midway':\n            raise RuntimeError('boom midway')\n        (d.dir / 'part2').write_text('P2')\n        d.finished()\n        return d",
@@ -150,6 +150,10 @@ class Faults(Suite):
                     out.append(dict(kind=kind, forced=forced, fault=fault))
                     if kind == 'dir' and fault in ('raise', 'raise_midway'):
                         out.append(dict(kind=kind, forced=forced, fault=fault, leftover='error'))     # a second failure
+        # results of many parts (more than ten arrays, hundreds of rows) and rows that hold the characters which some text
+        # functions take for line ends (U+2028, U+2029, U+0085, VT, FF, FS..RS): complete, or not there
+        out += [dict(kind=k, forced=f, fault='crash', leftover='none', big=True) for k in ('listnumpy', 'generated') for f in (False, True)]
+        out += [dict(kind=k, forced=False, fault=ft, leftover='none', special=True) for k in ('generated', 'generated_lazy') for ft in ('crash', 'raise')]
         return out
 
     def run_impl(self, case):
@@ -158,7 +162,7 @@ class Faults(Suite):
         old = os.getcwd()
         try:
             os.chdir(tmp)
-            state = dict(run=0, runs=0, fault=None, bad=None)
+            state = dict(run=0, runs=0, fault=None, bad=None, big=case.get('big'), special=case.get('special'))
             m = make_module(kind, state)
 
             def first():
